@@ -220,6 +220,19 @@ class Sched:
             return
         self.switch()
 
+    def post_point(self, op, obj=None):
+        """right AFTER a write became visible: not a scheduling point of its own, but a schedule rule can hold the writer up here
+        (a thread can be preempted between any two instructions, also between a write and whatever it does next)"""
+        if not self.rules:
+            return
+        pause = 0.0
+        for r in self.rules:
+            k = r(self, self.cur, op, obj, None)
+            if isinstance(k, tuple):
+                pause = max(pause, k[1])
+        if pause:
+            self.block_until(lambda: False, pause, 'descheduled')
+
     def block_until(self, pred, timeout=None, desc=''):
         self.check_abort()
         me = self.cur
@@ -517,6 +530,7 @@ class Event(_Shared):
         S.yield_point('event.set', self)
         self._f = True
         S.rec('event.set', self.role)
+        S.post_point('event.set+', self)
 
     def clear(self):
         S.yield_point('event.clear', self)
@@ -660,6 +674,7 @@ class Value(_Shared):
         S.yield_point('value.set', self, v)
         self._v = v
         S.rec('value.set', self.role, v)
+        S.post_point('value.set+', self)
 
     def get_lock(self):
         return self._lock
@@ -692,6 +707,7 @@ class Array(_Shared):
         else:
             self._a[i] = v
         S.rec('array.set', self.role, i if not isinstance(i, slice) else 'slice', v if not isinstance(i, slice) else None)
+        S.post_point('array.set+', self)
 
     def __iter__(self):
         S.yield_point('array.iter', self)
